@@ -1,8 +1,1205 @@
-//! C15 — not built yet.
+//! C15 — yq never emits YAML it cannot read back (DESIGN §4 C15). Black-box, engine E2.
+//!
+//! One case = (G-yaml stream, write-fragment program, `-I n`). Three spawns:
+//!
+//! ```text
+//! Y = succinctly yq -I n --from-file prog doc.yaml          (YAML, the subject)
+//! J = succinctly yq -o json -I0 --from-file prog doc.yaml   (what the same run prints as JSON)
+//! R = succinctly yq -o json -I0 . Y.yaml                    (Y read back)
+//! ```
+//!
+//! Oracle (metamorphic, derived from the statement): exit(Y) == exit(J); when both are 0 and
+//! every value of J is a mapping or sequence (a root scalar is printed unwrapped by the
+//! documented `-r` default and is not meant to be re-read): R succeeds and
+//! `values(R) == values(J)` under O-jsonval (numbers as doubles, object fields in order).
+//! `-I 8` is outside the accepted 0..=7: both runs must fail with the same usage error.
+//! Alias soundness is read off Y with the library (`YamlIndex::build(Y)` must succeed; every
+//! alias node has a target, in the same document, at a smaller byte offset, whose JSON value
+//! equals the value J prints at the alias's path). Exit status 101 / death by signal in any
+//! of the three runs is a violation (`C15/crash/...`); a watchdog timeout discards the case.
+//!
+//! Sub-checks
+//! * `reread` — the search described above, G-yaml `full()` minus the trigger shapes of the
+//!   open *loader* findings (C14's business), programs from `gen::yqprog::gen_write`.
+//!   Shapes of C15's own open findings are avoided by construction while they are listed
+//!   as `known` (the flags are derived from `known_findings.json`, so a finding that becomes
+//!   `fixed` is generated again automatically).
+//! * `quoting-matrix` — one string of the G-yaml palette written by a program into one
+//!   position of a fixed document (block value, value inside a flow collection, block key,
+//!   key inside a flow mapping); same oracle. A failure is attributed to (position, known
+//!   quoting gap of the string) — `known_quoting_gap` is the executable trigger predicate of
+//!   the DOM emitter's open quoting findings — or to `unexplained:<class>` (a violation).
+//! * `open-finding-shapes` — the `reread` search with the shapes of C15's own findings
+//!   generated on purpose: every failure there must carry a listed signature (counted),
+//!   anything else is a violation.
+//!
+//! Attribution (`check_case`): a failure is renamed to a finding's signature only when the
+//! finding's trigger predicate holds on the case itself — fails at `-I 0` and passes
+//! unchanged at `-I 2`; a string differs by a spliced `# comment` / one lost trailing line
+//! break and the input has a block scalar and a comment; a string differs by multiplied
+//! leading line breaks (or one added trailing break after two or more) and the input has a
+//! folded block scalar; the re-read says `unknown anchor` after a write.
+//!
+//! Documented, hence neither generated nor asserted: `--sort-keys` and navigation into a
+//! sub-tree whose aliases point outside it (streaming-path alias gap #1350,
+//! docs/compliance/yq/limitations.md); keys spelled `<<` (merge keys, even quoted); root
+//! scalar results (printed unwrapped); an output line `- plain #c: d` (a comment containing
+//! `: ` on a line without a key: docs/compliance/yaml/limitations.md "KeyWithoutValue").
+//!
+//! Structured replays: `{"input": {"yaml" | "yaml_hex", "program", "indent"}}` (a
+//! `quoting-matrix` replay also names its `matrix_signature`).
+//! Development aid: `VH_C15_SURVEY=<file>` logs every failure and keeps searching.
+use crate::cli;
 use crate::engine::*;
+use crate::gen::json::{j_eq, to_compact, J};
+use crate::gen::yaml::{self as gy, Seg, YOpts, YStrings, Y};
+use crate::gen::yqprog::{self, ProgMode, WriteProg};
+use crate::oracle::jsonval;
+use serde_json::{json, Value};
+use std::sync::atomic::{AtomicU64, Ordering};
+use succinctly::yaml::{YamlCursor, YamlIndex, YamlValue};
 
-pub const RULE: &str = "not built";
+pub const RULE: &str = "G-yaml streams (1-2 documents, anchors/aliases, comments, block scalars, quoted and ambiguous-looking strings, LF/CRLF/CR) x write-fragment programs (identity, navigation, =, |=, +=, del, `. * {..}`, `.p *= .q`, //=, pipelines of these) whose paths come from the document (anchored nodes, aliases, nodes inside aliased collections, parents of block scalars, new keys, appended indices, missing paths) x -I 0..=7 (and the rejected 8). Oracle: the YAML output read back by `yq -o json .` equals the JSON output of the same run (O-jsonval values), equal exit statuses, alias soundness read with the library. Non-trivial: a write program and (document has an anchor/alias or a block scalar or a quoted ambiguous-looking string); distinct by hash(document text, program, indent).";
+
+static TIMEOUTS: AtomicU64 = AtomicU64::new(0);
+
+/// Signatures of C15's own findings (see known_findings.json); the generator consults
+/// `Ctx::is_known` for each to decide what to avoid.
+const SIG_I0: &str = "C15/reread-differs/I0-only";
+const SIG_HEADER_COMMENT: &str = "C15/reread-differs/comment-after-block-scalar-content";
+const SIG_FOLDED_LEAD: &str = "C15/reread-differs/folded-leading-blank-lines";
+const SIG_FOLDED_KEEP: &str = "C15/reread-differs/folded-keep-trailing-line-break-added";
+const SIG_NESTED_ANCHOR: &str = "C15/alias-soundness/unknown-anchor/after-write";
+/// C14's open loader finding, met in the emitter's own output
+const SIG_LOADER_COL0: &str = "C15/reread-differs/loader-empty-value-then-col0-quoted-key";
+
+#[derive(Clone, Debug)]
+pub struct Case {
+    pub yaml: Vec<u8>,
+    pub program: String,
+    pub indent: u8,
+}
+
+fn trunc(s: &str, n: usize) -> String {
+    if s.chars().count() > n {
+        format!("{}...", s.chars().take(n).collect::<String>())
+    } else {
+        s.to_string()
+    }
+}
+
+/// the first line of stderr that carries the message (no backtrace, no path noise)
+fn err_head(o: &cli::CliOut) -> String {
+    let s = o.stderr_str();
+    trunc(s.lines().find(|l| !l.trim().is_empty()).unwrap_or(""), 200)
+}
+
+/// digits → N, quoted text → Q: a stable shape of an error message
+fn err_shape(msg: &str) -> String {
+    let mut out = String::new();
+    let mut last_n = false;
+    for c in msg.chars() {
+        if c.is_ascii_digit() {
+            if !last_n {
+                out.push('N');
+            }
+            last_n = true;
+        } else {
+            last_n = false;
+            out.push(c);
+        }
+    }
+    // cut at the file name / offending text
+    let out = out.split(" in /").next().unwrap_or("").to_string();
+    trunc(&out, 80)
+}
+
+// ---------------------------------------------------------------- classification of strings
+
+/// Why would a YAML emitter have to quote `s`? First matching reason, most specific first.
+/// Used only to give failures a narrow, stable signature.
+pub fn str_class(s: &str, in_flow_hint: bool) -> &'static str {
+    if s.is_empty() {
+        return "empty";
+    }
+    let cs: Vec<char> = s.chars().collect();
+    let first = cs[0];
+    let last = cs[cs.len() - 1];
+    if cs.iter().any(|&c| c == '\n' || c == '\r') {
+        return "line-break";
+    }
+    if cs.iter().any(|&c| (c as u32) < 0x20 && c != '\t' || c as u32 == 0x7f) {
+        return "c0-control";
+    }
+    if cs.iter().any(|&c| matches!(c as u32, 0x80..=0x9f | 0x2028 | 0x2029 | 0xfeff | 0xfffe | 0xffff)) {
+        return "c1-or-unicode-break";
+    }
+    if first == ' ' {
+        return "leading-space";
+    }
+    if last == ' ' {
+        return "trailing-space";
+    }
+    if first == '\t' || last == '\t' {
+        return "edge-tab";
+    }
+    if cs.contains(&'\t') {
+        return "inner-tab";
+    }
+    let l = s.to_ascii_lowercase();
+    if matches!(l.as_str(), "null" | "~" | "true" | "false") {
+        return "null-bool-word";
+    }
+    let unsigned = l.trim_start_matches(['+', '-']);
+    if unsigned.starts_with("0x") && unsigned.len() > 2 && unsigned[2..].chars().all(|c| c.is_ascii_hexdigit()) {
+        return "hex-int";
+    }
+    if unsigned.starts_with("0o") && unsigned.len() > 2 && unsigned[2..].chars().all(|c| ('0'..='7').contains(&c)) {
+        return "octal-int";
+    }
+    if matches!(unsigned, ".inf" | ".nan") {
+        return "inf-nan";
+    }
+    if s.parse::<f64>().is_ok() || (unsigned.chars().any(|c| c.is_ascii_digit()) && unsigned.chars().all(|c| c.is_ascii_digit() || "._eE+-".contains(c))) {
+        return "number-like";
+    }
+    if s.contains(": ") || last == ':' {
+        return "colon-space";
+    }
+    if s.contains(" #") {
+        return "space-hash";
+    }
+    if "-?:".contains(first) && (cs.len() == 1 || cs[1] == ' ') {
+        return "block-indicator-start";
+    }
+    if ",[]{}#&*!|>'\"%@`".contains(first) {
+        return "indicator-start";
+    }
+    if s == "---" || s == "..." || s.starts_with("--- ") || s.starts_with("... ") {
+        return "document-marker";
+    }
+    if cs.iter().any(|&c| ",[]{}".contains(c)) {
+        return if in_flow_hint { "flow-indicator-inside" } else { "flow-indicator-inside" };
+    }
+    if s == "<<" {
+        return "merge-key";
+    }
+    if cs.iter().any(|&c| c == ':' || c == '#') {
+        return "colon-or-hash-inside";
+    }
+    "other"
+}
+
+// ---------------------------------------------------------------- value diff
+
+#[derive(Debug)]
+struct Diff {
+    path: String,
+    /// signature fragment
+    what: String,
+    expected: String,
+    actual: String,
+}
+
+fn jpath(p: &[Seg]) -> String {
+    gy::path_str(p)
+}
+
+/// `got` = `want` with ` #...` inserted at the end of its last content line
+fn comment_spliced(want: &str, got: &str) -> bool {
+    let body = want.trim_end_matches('\n');
+    let tail = &want[body.len()..];
+    match got.strip_prefix(body) {
+        Some(rest) => {
+            let rest = rest.strip_suffix(tail).unwrap_or(rest);
+            let t = rest.trim_start_matches([' ', '\t']);
+            t.len() < rest.len() && t.starts_with('#') && !t.contains('\n')
+        }
+        None => false,
+    }
+}
+
+/// `got` = `want` with more leading line breaks *and* exactly one more trailing line break
+/// after two or more (both folded-scalar findings at once)
+fn both_break_runs_grown(want: &str, got: &str) -> bool {
+    let (wl, gl) = (want.trim_start_matches('\n'), got.trim_start_matches('\n'));
+    let (kw, kg) = (want.len() - wl.len(), got.len() - gl.len());
+    kw >= 1 && kg > kw && wl.ends_with("\n\n") && gl.len() == wl.len() + 1 && gl.starts_with(wl) && gl.ends_with('\n')
+}
+
+/// `got` = `want` with more line breaks in front of the same text
+fn leading_breaks_multiplied(want: &str, got: &str) -> bool {
+    let (w, g) = (want.trim_start_matches('\n'), got.trim_start_matches('\n'));
+    let (kw, kg) = (want.len() - w.len(), got.len() - g.len());
+    kw >= 1 && kg > kw && w == g
+}
+
+/// The YAML text has a block scalar header (`|`, `>` with chomping / indentation
+/// indicators, at the end of a line or before a comment) and, somewhere, a `#`. Textual
+/// approximation used only to attribute a failure whose symptom is already specific.
+pub fn has_block_scalar_and_comment(yaml: &[u8]) -> bool {
+    let t = String::from_utf8_lossy(yaml);
+    let header = t.split(['\n', '\r']).any(|line| {
+        let l = line.split(" #").next().unwrap_or("").split("\t#").next().unwrap_or("").trim_end_matches([' ', '\t']);
+        let l = l.trim_end_matches(|c: char| c == '+' || c == '-' || c.is_ascii_digit());
+        (l.ends_with('>') || l.ends_with('|')) && (l.len() == 1 || l[..l.len() - 1].ends_with([' ', '\t']))
+    });
+    header && t.contains('#')
+}
+
+/// Some line ends in a folded block scalar header (`>`, `>-`, `>+`, optional comment).
+pub fn has_folded_header(yaml: &[u8]) -> bool {
+    let t = String::from_utf8_lossy(yaml);
+    t.split(['\n', '\r']).any(|line| {
+        let l = line.split(" #").next().unwrap_or("").trim_end_matches([' ', '\t']);
+        let l = l.trim_end_matches(['+', '-']);
+        l.ends_with('>') && (l.len() == 1 || l[..l.len() - 1].ends_with([' ', '\t']))
+    })
+}
+
+fn diff(a: &J, b: &J, p: &mut Vec<Seg>) -> Option<Diff> {
+    match (a, b) {
+        (J::Arr(x), J::Arr(y)) => {
+            for (i, (u, v)) in x.iter().zip(y.iter()).enumerate() {
+                p.push(Seg::Idx(i));
+                let d = diff(u, v, p);
+                p.pop();
+                if d.is_some() {
+                    return d;
+                }
+            }
+            if x.len() != y.len() {
+                return Some(Diff { path: jpath(p), what: "array-length".into(), expected: x.len().to_string(), actual: y.len().to_string() });
+            }
+            None
+        }
+        (J::Obj(x), J::Obj(y)) => {
+            for ((k1, u), (k2, v)) in x.iter().zip(y.iter()) {
+                if k1 != k2 {
+                    return Some(Diff { path: jpath(p), what: format!("key:{}", str_class(k1, false)), expected: format!("{:?}", k1), actual: format!("{:?}", k2) });
+                }
+                p.push(Seg::Key(k1.clone()));
+                let d = diff(u, v, p);
+                p.pop();
+                if d.is_some() {
+                    return d;
+                }
+            }
+            if x.len() != y.len() {
+                let (e, a) = (x.get(y.len()).map(|e| e.0.clone()), y.get(x.len()).map(|e| e.0.clone()));
+                let what = match &e {
+                    Some(k) => format!("key:{}", str_class(k, false)),
+                    None => "extra-key".to_string(),
+                };
+                return Some(Diff { path: jpath(p), what, expected: format!("{:?}", e), actual: format!("{:?}", a) });
+            }
+            None
+        }
+        _ => {
+            if j_eq(a, b) {
+                return None;
+            }
+            let what = match (a, b) {
+                // the re-read string is the expected one with ` # ...` spliced in before its
+                // trailing line breaks: a comment was written where it becomes content
+                (J::Str(s), J::Str(t)) if comment_spliced(s, t) => "str:comment-text-became-content".to_string(),
+                (J::Str(s), J::Str(t)) if s.ends_with('\n') && s[..s.len() - 1] == **t => "str:one-trailing-line-break-lost".to_string(),
+                (J::Str(s), J::Str(t)) if s.ends_with("\n\n") && t.len() == s.len() + 1 && t.starts_with(s.as_str()) && t.ends_with('\n') => "str:one-trailing-line-break-added".to_string(),
+                (J::Str(s), J::Str(t)) if leading_breaks_multiplied(s, t) => "str:leading-line-breaks-multiplied".to_string(),
+                (J::Str(s), J::Str(t)) if both_break_runs_grown(s, t) => "str:leading-and-trailing-line-breaks-grown".to_string(),
+                (J::Str(s), _) => format!("str:{}", str_class(s, false)),
+                _ => format!("{}-reads-as-{}", a.kind(), b.kind()),
+            };
+            Some(Diff { path: jpath(p), what, expected: trunc(&to_compact(a), 200), actual: trunc(&to_compact(b), 200) })
+        }
+    }
+}
+
+// ---------------------------------------------------------------- alias soundness (library)
+
+struct AliasStats {
+    aliases: u32,
+    anchors: u32,
+}
+
+fn walk_alias(c: YamlCursor<'_>, j: Option<&J>, p: &mut Vec<Seg>, st: &mut AliasStats, depth: usize) -> Result<(), Fail> {
+    if depth > 200 {
+        return Ok(());
+    }
+    if c.anchor().is_some() {
+        st.anchors += 1;
+    }
+    match c.value() {
+        YamlValue::Alias { target, anchor_name } => {
+            st.aliases += 1;
+            let t = match target {
+                Some(t) => t,
+                None => fail!("C15/alias-soundness/unresolved", {"path": jpath(p), "anchor": anchor_name.to_string()}),
+            };
+            let (tp, cp) = (t.text_position(), c.text_position());
+            match (tp, cp) {
+                (Some(tp), Some(cp)) if tp < cp => {}
+                _ => fail!("C15/alias-soundness/anchor-not-before-alias", {"path": jpath(p), "anchor": anchor_name.to_string(), "anchor_offset": format!("{:?}", tp), "alias_offset": format!("{:?}", cp)}),
+            }
+            if t.document_index() != c.document_index() {
+                fail!("C15/alias-soundness/anchor-in-other-document", {"path": jpath(p), "anchor": anchor_name.to_string()});
+            }
+            if let Some(j) = j {
+                let tj = t.to_json();
+                match jsonval::parse_one(tj.as_bytes()) {
+                    Ok(tv) if j_eq(&tv, j) => {}
+                    Ok(tv) => fail!("C15/alias-soundness/anchor-value-differs", {"path": jpath(p), "anchor": anchor_name.to_string(), "anchor_value": trunc(&to_compact(&tv), 200), "json_run_value": trunc(&to_compact(j), 200)}),
+                    Err(e) => fail!("C15/alias-soundness/anchor-value-unreadable", {"path": jpath(p), "json": trunc(&tj, 200), "error": e.msg}),
+                }
+            }
+        }
+        YamlValue::Mapping(f) => {
+            let mut f = f;
+            let mut i = 0usize;
+            while let Some((field, rest)) = f.uncons() {
+                let k = field.key().key_string().into_owned();
+                let sub = match j {
+                    Some(J::Obj(o)) => o.get(i).filter(|e| e.0 == k).map(|e| &e.1),
+                    _ => None,
+                };
+                p.push(Seg::Key(k));
+                walk_alias(field.value_cursor(), sub, p, st, depth + 1)?;
+                p.pop();
+                i += 1;
+                f = rest;
+            }
+        }
+        YamlValue::Sequence(el) => {
+            let mut el = el;
+            let mut i = 0usize;
+            while let Some((x, rest)) = el.uncons_cursor() {
+                let sub = match j {
+                    Some(J::Arr(a)) => a.get(i),
+                    _ => None,
+                };
+                p.push(Seg::Idx(i));
+                walk_alias(x, sub, p, st, depth + 1)?;
+                p.pop();
+                i += 1;
+                el = rest;
+            }
+        }
+        _ => {}
+    }
+    Ok(())
+}
+
+fn alias_soundness(ytext: &[u8], jvals: &[J]) -> Result<AliasStats, Fail> {
+    let mut st = AliasStats { aliases: 0, anchors: 0 };
+    let index = match YamlIndex::build(ytext) {
+        Ok(i) => i,
+        Err(e) => fail!(format!("C15/alias-soundness/build-error/{}", err_shape(&e.to_string())), {"error": e.to_string(), "yaml_output": show_bytes(ytext)}),
+    };
+    let root = index.root(ytext);
+    if let YamlValue::Sequence(docs) = root.value() {
+        let mut docs = docs;
+        let mut i = 0usize;
+        while let Some((d, rest)) = docs.uncons_cursor() {
+            let mut p = vec![];
+            walk_alias(d, jvals.get(i), &mut p, &mut st, 0)?;
+            i += 1;
+            docs = rest;
+        }
+    }
+    Ok(st)
+}
+
+// ---------------------------------------------------------------- the oracle
+
+#[derive(Debug, PartialEq, Clone, Copy)]
+pub enum Outcome {
+    /// Y was read back and compared
+    Reread { aliases: u32, anchors: u32 },
+    /// some result is a root scalar (printed unwrapped): only exit statuses were compared
+    ScalarResult,
+    /// no result at all
+    NoResult,
+    /// both runs failed alike
+    BothError,
+    /// `-I 8`: both runs reported the same usage error
+    UsageError,
+    /// the output ran into a documented loader limitation (not asserted)
+    DocumentedLimit,
+    Discarded,
+}
+
+/// does the program text contain a write operator of the fragment (`=`, `|=`, `+=`, `*=`,
+/// `//=`, `del(`, `. * {`)? Identity and navigation contain none of these characters
+/// outside string literals, and the generator quotes keys with `jq_string`, so a `=` inside
+/// a key literal would count as a write too — good enough for naming a route.
+fn program_writes(p: &str) -> bool {
+    p.contains('=') || p.contains("del(") || p.contains(" * ")
+}
+
+/// `y` with the comment removed from every line whose comment contains `: ` (or ends in
+/// `:`) while the text before the comment has no `key:` of its own; None if there is no such line.
+fn strip_colon_comments_on_keyless_lines(y: &[u8]) -> Option<Vec<u8>> {
+    let t = String::from_utf8_lossy(y);
+    let mut out = String::with_capacity(t.len());
+    let mut found = false;
+    for line in t.split_inclusive('\n') {
+        let (body, nl) = match line.strip_suffix('\n') {
+            Some(b) => (b, "\n"),
+            None => (line, ""),
+        };
+        let at = match (body.find(" #"), body.find("\t#")) {
+            (Some(a), Some(b)) => Some(a.min(b)),
+            (Some(a), None) | (None, Some(a)) => Some(a),
+            _ => None,
+        };
+        if let Some(at) = at {
+            let (pre, comment) = body.split_at(at);
+            let has_colon = |s: &str| s.contains(": ") || s.contains(":\t") || s.trim_end().ends_with(':');
+            if has_colon(comment) && !has_colon(pre) {
+                found = true;
+                out.push_str(pre);
+                out.push_str(nl);
+                continue;
+            }
+        }
+        out.push_str(line);
+    }
+    if found {
+        Some(out.into_bytes())
+    } else {
+        None
+    }
+}
+
+/// `y` with ` null` written after every block mapping key that has an empty value and is
+/// followed by a column-0 line starting with a quoted key (the trigger shape of C14's open
+/// loader finding `empty-value-then-col0-quoted-key`); None if the shape does not occur.
+fn spell_empty_values_before_col0_quoted_keys(y: &[u8]) -> Option<Vec<u8>> {
+    let t = String::from_utf8_lossy(y);
+    let lines: Vec<&str> = t.split_inclusive('\n').collect();
+    let mut out = String::with_capacity(t.len() + 16);
+    let mut found = false;
+    for (i, line) in lines.iter().enumerate() {
+        let body = line.trim_end_matches('\n');
+        // `key:` optionally followed by a comment, nothing else
+        let code = match (body.find(" #"), body.find("\t#")) {
+            (Some(a), Some(b)) => &body[..a.min(b)],
+            (Some(a), None) | (None, Some(a)) => &body[..a],
+            _ => body,
+        };
+        let code_trim = code.trim_end();
+        let next_content = lines[i + 1..].iter().map(|l| l.trim_end_matches('\n')).find(|l| !l.trim().is_empty() && !l.trim_start().starts_with('#'));
+        let next_is_col0_quoted = matches!(next_content, Some(n) if n.starts_with('"') || n.starts_with('\''));
+        if code_trim.ends_with(':') && !code_trim.is_empty() && next_is_col0_quoted {
+            found = true;
+            out.push_str(code_trim);
+            out.push_str(" null");
+            out.push_str(&body[code_trim.len()..]);
+            if line.ends_with('\n') {
+                out.push('\n');
+            }
+        } else {
+            out.push_str(line);
+        }
+    }
+    if found {
+        Some(out.into_bytes())
+    } else {
+        None
+    }
+}
+
+fn tmp_named(stem: &str, ext: &str, data: &[u8]) -> std::path::PathBuf {
+    let mut p = cli::tmp_file(stem).into_os_string();
+    p.push(ext);
+    let p = std::path::PathBuf::from(p);
+    std::fs::write(&p, data).expect("write temp file");
+    p
+}
+
+fn spawn(args: &[&str]) -> Option<cli::CliOut> {
+    let mut o = cli::run(args, None);
+    if o.timed_out {
+        o = cli::run(args, None);
+    }
+    if o.timed_out {
+        TIMEOUTS.fetch_add(1, Ordering::Relaxed);
+        return None;
+    }
+    Some(o)
+}
+
+fn crash_fail(route: &str, o: &cli::CliOut, case: &Case) -> Fail {
+    Fail::new(
+        format!("C15/crash/{}/{}", route, if o.signal.is_some() { format!("signal-{}", o.signal.unwrap()) } else { "exit-101".into() }),
+        json!({"route": route, "stderr": trunc(&o.stderr_str(), 600), "program": case.program, "indent": case.indent, "yaml": show_bytes(&case.yaml)}),
+    )
+}
+
+/// One evaluation of the oracle at the case's indent.
+fn check_once(case: &Case, indent: u8, st: &mut Stats) -> Result<Outcome, Fail> {
+    let doc = tmp_named("c15d", ".yaml", &case.yaml);
+    let prog = tmp_named("c15p", ".jq", case.program.as_bytes());
+    let (docs, progs) = (doc.to_string_lossy().to_string(), prog.to_string_lossy().to_string());
+    let ind = indent.to_string();
+    let cleanup = |extra: Option<&std::path::Path>| {
+        let _ = std::fs::remove_file(&doc);
+        let _ = std::fs::remove_file(&prog);
+        if let Some(e) = extra {
+            let _ = std::fs::remove_file(e);
+        }
+    };
+    let y = spawn(&["yq", "-I", &ind, "--from-file", &progs, &docs]);
+    let j = spawn(&["yq", "-o", "json", "-I0", "--from-file", &progs, &docs]);
+    st.evals(2);
+    let (y, j) = match (y, j) {
+        (Some(y), Some(j)) => (y, j),
+        _ => {
+            cleanup(None);
+            return Ok(Outcome::Discarded);
+        }
+    };
+    let detail = |extra: Value| -> Value {
+        let mut d = json!({"program": case.program, "indent": indent, "yaml": show_bytes(&case.yaml), "yaml_output": show_bytes(&y.stdout), "json_output": trunc(&j.stdout_str(), 600)});
+        if let (Some(m), Some(e)) = (d.as_object_mut(), extra.as_object()) {
+            for (k, v) in e {
+                m.insert(k.clone(), v.clone());
+            }
+        }
+        d
+    };
+    if y.crashed() {
+        cleanup(None);
+        return Err(crash_fail("yaml-run", &y, case));
+    }
+    if j.crashed() {
+        cleanup(None);
+        return Err(crash_fail("json-run", &j, case));
+    }
+    if indent > 7 {
+        // the same run with `-I 8` for the JSON side too: both must refuse alike
+        let j8 = spawn(&["yq", "-o", "json", "-I", &ind, "--from-file", &progs, &docs]);
+        cleanup(None);
+        let j8 = match j8 {
+            Some(o) => o,
+            None => return Ok(Outcome::Discarded),
+        };
+        if y.code == Some(0) || j8.code == Some(0) || y.code != j8.code || y.stderr != j8.stderr {
+            return Err(Fail::new("C15/indent-out-of-range/not-the-same-usage-error", detail(json!({"yaml_exit": y.code, "json_exit": j8.code, "yaml_stderr": err_head(&y), "json_stderr": err_head(&j8)}))));
+        }
+        return Ok(Outcome::UsageError);
+    }
+    if y.code != j.code {
+        cleanup(None);
+        return Err(Fail::new(
+            format!("C15/exit-status-differs/yaml={:?}/json={:?}", y.code, j.code),
+            detail(json!({"yaml_stderr": err_head(&y), "json_stderr": err_head(&j)})),
+        ));
+    }
+    if y.code != Some(0) {
+        cleanup(None);
+        return Ok(Outcome::BothError);
+    }
+    let jvals = match jsonval::parse_stream(&j.stdout) {
+        Ok(v) => v,
+        Err(e) => {
+            cleanup(None);
+            return Err(Fail::new("C15/json-output-unparseable", detail(json!({"error": e.msg, "offset": e.offset}))));
+        }
+    };
+    if jvals.is_empty() {
+        cleanup(None);
+        return Ok(Outcome::NoResult);
+    }
+    if jvals.iter().any(|v| !v.is_container()) {
+        cleanup(None);
+        return Ok(Outcome::ScalarResult);
+    }
+    // R: read Y back. `reread_matches` is the same step on a *patched* copy of Y, used to
+    // decide whether a failure is owed to a documented / already listed loader problem.
+    let reread_matches = |text: &[u8], st: &mut Stats| -> bool {
+        let f = tmp_named("c15y", ".yaml", text);
+        let r = spawn(&["yq", "-o", "json", "-I0", ".", &f.to_string_lossy()]);
+        st.evals(1);
+        let _ = std::fs::remove_file(&f);
+        match r {
+            Some(r) if r.ok() => match jsonval::parse_stream(&r.stdout) {
+                Ok(v) => v.len() == jvals.len() && v.iter().zip(jvals.iter()).all(|(a, b)| j_eq(a, b)),
+                Err(_) => false,
+            },
+            _ => false,
+        }
+    };
+    let yf = tmp_named("c15y", ".yaml", &y.stdout);
+    let yfs = yf.to_string_lossy().to_string();
+    let r = spawn(&["yq", "-o", "json", "-I0", ".", &yfs]);
+    st.evals(1);
+    cleanup(Some(&yf));
+    let r = match r {
+        Some(r) => r,
+        None => return Ok(Outcome::Discarded),
+    };
+    if r.crashed() {
+        return Err(crash_fail("reread", &r, case));
+    }
+    let failure: Option<Fail> = if !r.ok() {
+        if err_head(&r).contains("unknown anchor") {
+            // an alias without its anchor: name the route (DOM path after a write, or the
+            // streaming path)
+            let route = if program_writes(&case.program) { "after-write" } else { "after-read" };
+            Some(Fail::new(format!("C15/alias-soundness/unknown-anchor/{}", route), detail(json!({"reread_exit": r.code, "reread_stderr": err_head(&r)}))))
+        } else {
+            Some(Fail::new(format!("C15/reread-error/{}", err_shape(&err_head(&r))), detail(json!({"reread_exit": r.code, "reread_stderr": err_head(&r)}))))
+        }
+    } else {
+        match jsonval::parse_stream(&r.stdout) {
+            Err(e) => Some(Fail::new("C15/reread-json-unparseable", detail(json!({"error": e.msg, "reread_output": trunc(&r.stdout_str(), 600)})))),
+            Ok(rvals) if rvals.len() != jvals.len() => Some(Fail::new(
+                "C15/reread-differs/document-count",
+                detail(json!({"expected_documents": jvals.len(), "actual_documents": rvals.len(), "reread_output": trunc(&r.stdout_str(), 600)})),
+            )),
+            Ok(rvals) => {
+                let mut f = None;
+                for (i, (a, b)) in jvals.iter().zip(rvals.iter()).enumerate() {
+                    if let Some(d) = diff(a, b, &mut vec![]) {
+                        f = Some(Fail::new(
+                            format!("C15/reread-differs/{}", d.what),
+                            detail(json!({"document": i, "path": d.path, "expected": d.expected, "actual": d.actual, "reread_output": trunc(&r.stdout_str(), 600)})),
+                        ));
+                        break;
+                    }
+                }
+                f
+            }
+        }
+    };
+    if let Some(f) = failure {
+        if f.sig.starts_with("C15/alias-soundness/") {
+            return Err(f);
+        }
+        // (1) documented loader limitation (docs/compliance/yaml/limitations.md, "A key run
+        //     that ends before its `:`": `b #c: d` -> KeyWithoutValue; `- *a #c:` fails the
+        //     same way with "expected ':' after key"): a comment containing `: ` (or ending in
+        //     `:`) was re-emitted on a line that has no `key:` of its own. Counted as such
+        //     only if the output reads back correctly once just those comments are cut.
+        if let Some(y2) = strip_colon_comments_on_keyless_lines(&y.stdout) {
+            if reread_matches(&y2, st) {
+                return Ok(Outcome::DocumentedLimit);
+            }
+        }
+        // (2) C14's open loader finding (`a:` with an empty value followed by a column-0 line
+        //     that starts with a quoted key) reached through the emitter's own output: the
+        //     output reads back correctly once those empty values are spelled `null`.
+        if let Some(y3) = spell_empty_values_before_col0_quoted_keys(&y.stdout) {
+            if reread_matches(&y3, st) {
+                let mut d = f.detail.clone();
+                if let Some(m) = d.as_object_mut() {
+                    m.insert("symptom".into(), json!(f.sig));
+                    m.insert("attributed_because".into(), json!("the output reads back correctly once `key:` lines followed by a column-0 quoted key are written `key: null`"));
+                }
+                return Err(Fail::new(SIG_LOADER_COL0, d));
+            }
+        }
+        return Err(f);
+    }
+    match alias_soundness(&y.stdout, &jvals) {
+        Ok(a) => Ok(Outcome::Reread { aliases: a.aliases, anchors: a.anchors }),
+        Err(mut f) => {
+            if let Some(m) = f.detail.as_object_mut() {
+                m.insert("program".into(), json!(case.program));
+                m.insert("indent".into(), json!(indent));
+                m.insert("yaml".into(), json!(show_bytes(&case.yaml)));
+                m.insert("yaml_output".into(), json!(show_bytes(&y.stdout)));
+            }
+            Err(f)
+        }
+    }
+}
+
+/// The oracle plus attribution of a failure to the open findings whose trigger predicate
+/// can be evaluated on the case itself:
+/// * fails at `-I 0` and passes unchanged at `-I 2` → the zero-indentation finding;
+/// * a string differs by a spliced comment / one lost trailing line break and the input
+///   has a block scalar header carrying a comment → the header-comment finding;
+/// * a string differs by multiplied leading line breaks and the input has a folded block
+///   scalar → the folded-leading-blank-line finding;
+/// * a string ending in two or more line breaks comes back with one more and the input has
+///   a folded block scalar → the folded-keep finding.
+pub fn check_case(case: &Case, st: &mut Stats) -> Result<Outcome, Fail> {
+    let f = match check_once(case, case.indent, st) {
+        Err(f) => f,
+        ok => return ok,
+    };
+    if f.sig.starts_with("C15/crash") {
+        return Err(f);
+    }
+    let rename = |f: &Fail, sig: &str, why: &str| -> Fail {
+        let mut d = f.detail.clone();
+        if let Some(m) = d.as_object_mut() {
+            m.insert("symptom".into(), json!(f.sig));
+            m.insert("attributed_because".into(), json!(why));
+        }
+        Fail::new(sig, d)
+    };
+    if case.indent == 0 {
+        if let Ok(o) = check_once(case, 2, st) {
+            if o != Outcome::Discarded {
+                return Err(rename(&f, SIG_I0, "the same case passes at -I 2"));
+            }
+        }
+    }
+    let sym = f.sig.as_str();
+    if (sym == "C15/reread-differs/str:comment-text-became-content" || sym == "C15/reread-differs/str:one-trailing-line-break-lost") && has_block_scalar_and_comment(&case.yaml) {
+        return Err(rename(&f, SIG_HEADER_COMMENT, "input has a block scalar and a comment"));
+    }
+    if sym == "C15/reread-differs/str:leading-line-breaks-multiplied" && has_folded_header(&case.yaml) {
+        return Err(rename(&f, SIG_FOLDED_LEAD, "input has a folded block scalar"));
+    }
+    if sym == "C15/reread-differs/str:leading-and-trailing-line-breaks-grown" && has_folded_header(&case.yaml) {
+        // both folded-scalar findings in one value: counted with the leading-run finding
+        return Err(rename(&f, SIG_FOLDED_LEAD, "input has a folded block scalar; the value starts with a line break and ends in two or more"));
+    }
+    if sym == "C15/reread-differs/str:one-trailing-line-break-added" && has_folded_header(&case.yaml) {
+        return Err(rename(&f, SIG_FOLDED_KEEP, "input has a folded block scalar; the value ends in two or more line breaks"));
+    }
+    Err(f)
+}
+
+// ---------------------------------------------------------------- generation
+
+/// Shapes of C15's own open findings that the main search does not generate
+/// (derived from known_findings.json; a finding that becomes `fixed` is generated again).
+#[derive(Clone, Copy, Default)]
+struct Avoid {
+    /// `-I 0` together with a write program
+    i0_writes: bool,
+    /// strings the DOM emitter fails to quote: write programs get the simple palette
+    /// (documents and literals); `quoting-matrix` covers the palette one string at a time
+    dom_quoting: bool,
+    /// a comment on a block scalar's header line
+    header_comment: bool,
+    /// a folded block scalar whose value starts with a line break
+    folded_leading_blank: bool,
+    /// a folded block scalar whose value ends in two or more line breaks (keep chomping)
+    folded_keep: bool,
+    /// a write program on a document with an anchor inside an anchored collection
+    nested_anchor_writes: bool,
+}
+
+fn doc_opts(simple: bool) -> YOpts {
+    let mut o = YOpts::full();
+    o.max_docs = 2;
+    o.max_depth = 6;
+    o.max_nodes = 28;
+    o.deep_spine_16 = 0;
+    if simple {
+        o.strings = YStrings::Simple;
+    }
+    // trigger shapes of the open *loader* findings (C14): both runs would hit them alike,
+    // but the emitter echoes source presentation, so keep them out of C15's input space
+    o.avoid = gy::YAvoid {
+        empty_value_before_col0_quoted_key: true,
+        comment_after_root_anchor: true,
+        quote_inside_flow_plain: true,
+        tab_after_closing_quote: true,
+        nextline_plain_continuation_not_deeper: true,
+        literal_hash_first_then_indented: true,
+        root_block_scalar_reread: true,
+        ..gy::YAvoid::none()
+    };
+    o
+}
+
+/// (block scalar header with a comment, folded scalar starting with a line break, folded
+/// scalar ending in two or more line breaks) — exact, from the span table
+fn own_shapes(r: &gy::RenderedYaml) -> (bool, bool, bool) {
+    let mut header_comment = false;
+    let mut folded_lead = false;
+    let mut folded_keep = false;
+    for sp in &r.spans {
+        if !matches!(sp.style, gy::YStyle::Literal | gy::YStyle::Folded) {
+            continue;
+        }
+        // a comment on the header line, or on the line of any enclosing collection whose
+        // rendering ends with this scalar (`- &a # c` above a nested block scalar), is
+        // re-emitted after the scalar's last line: any comment next to a block scalar counts
+        if r.stats.has_comment() {
+            header_comment = true;
+        }
+        if sp.style == gy::YStyle::Folded {
+            if let Y::Str(s) = &sp.value {
+                if s.starts_with('\n') {
+                    folded_lead = true;
+                }
+                if s.ends_with("\n\n") {
+                    folded_keep = true;
+                }
+            }
+        }
+    }
+    (header_comment, folded_lead, folded_keep)
+}
+
+/// an anchor defined strictly inside an anchored collection (`&A [&b x]`)
+fn has_nested_anchor(r: &gy::RenderedYaml) -> bool {
+    let outer: Vec<(usize, &Vec<Seg>)> = r.containers.iter().filter(|c| c.anchor.is_some()).map(|c| (c.doc, &c.path)).collect();
+    let inner = r
+        .spans
+        .iter()
+        .filter(|s| s.anchor.is_some())
+        .map(|s| (s.doc, &s.path))
+        .chain(r.containers.iter().filter(|c| c.anchor.is_some()).map(|c| (c.doc, &c.path)));
+    for (d, p) in inner {
+        if outer.iter().any(|(od, op)| *od == d && p.len() > op.len() && p.starts_with(op)) {
+            return true;
+        }
+    }
+    false
+}
+
+/// Documented gap #1350 (docs/compliance/yq/limitations.md "Known gap in this rule"): the
+/// streaming path prints an alias verbatim even when the selected sub-tree does not
+/// contain its anchor (`yq .b` on `a: &x 1` / `b: *x` prints `*x`). Does navigating to
+/// `path` select a sub-tree with such an alias in some document of the stream?
+fn nav_leaves_anchor_behind(r: &gy::RenderedYaml, path: &[Seg]) -> bool {
+    for sp in r.spans.iter().filter(|s| s.alias.is_some() && s.role == gy::YRole::Value && s.path.starts_with(path)) {
+        if sp.path == path {
+            return true; // the result is the alias itself
+        }
+        let name = sp.alias.as_deref();
+        // the anchor has to be printed too: strictly below the selected node (an anchor on
+        // the selected node itself is not always printed)
+        let inside = r.spans.iter().any(|a| a.doc == sp.doc && a.anchor.as_deref() == name && a.path.starts_with(path) && a.path.len() > path.len())
+            || r.containers.iter().any(|c| c.doc == sp.doc && c.anchor.as_deref() == name && c.path.starts_with(path) && c.path.len() > path.len());
+        if !inside {
+            return true;
+        }
+    }
+    false
+}
+
+struct Generated {
+    case: Case,
+    stream: Vec<Y>,
+    rendered: gy::RenderedYaml,
+    prog: WriteProg,
+    simple: bool,
+}
+
+fn gen_case(u: &mut Src, av: Avoid) -> Generated {
+    let want_write = u.ratio(3, 4);
+    let simple = if want_write && av.dom_quoting { true } else { u.ratio(1, 8) };
+    let mut o = doc_opts(simple);
+    let stream = gy::gen_stream(u, &o);
+    let mut rendered = gy::render(&stream, u, &o);
+    for _ in 0..3 {
+        let (hc, fl, fk) = own_shapes(&rendered);
+        if av.header_comment && hc {
+            o.comments = false;
+        } else if (av.folded_leading_blank && fl) || (av.folded_keep && fk) {
+            o.block_scalars = false;
+        } else if av.nested_anchor_writes && want_write && has_nested_anchor(&rendered) {
+            o.anchors = false;
+        } else {
+            break;
+        }
+        rendered = gy::render(&stream, u, &o);
+    }
+    let hints = yqprog::hints_of(&rendered, 0);
+    let mode = if want_write { ProgMode::WriteOnly } else { ProgMode::ReadOnly };
+    let mut prog = yqprog::gen_write(u, &stream[0], &hints, mode, simple && av.dom_quoting);
+    if let Some(p) = &prog.nav_path {
+        if nav_leaves_anchor_behind(&rendered, p) {
+            // documented gap #1350, not generated: select the whole document instead
+            prog = WriteProg { text: ".".into(), tags: vec!["identity", "nav-would-leave-anchor-behind(#1350)"], is_write: false, nav_path: None };
+        }
+    }
+    // exhausted entropy (draw 0) gives the default width; 8 is the rejected value
+    let mut indent = match u.below(20) {
+        0 | 4..=6 => 2u8,
+        1..=3 => 0,
+        19 => 8,
+        n => (n % 8) as u8,
+    };
+    if av.i0_writes && indent == 0 && prog.is_write {
+        indent = 2 + (u.below(6) as u8);
+    }
+    Generated { case: Case { yaml: rendered.text.clone(), program: prog.text.clone(), indent }, stream, rendered, prog, simple }
+}
+
+fn classify(g: &Generated, st: &mut Stats) {
+    let s = &g.rendered.stats;
+    let special = s.anchors + s.aliases > 0 || s.literal + s.folded > 0 || s.quoted_ambiguous > 0;
+    let nt = g.prog.is_write && special && g.case.indent <= 7;
+    if nt {
+        let mut h = g.case.yaml.clone();
+        h.extend_from_slice(g.case.program.as_bytes());
+        h.push(g.case.indent);
+        st.nontrivial(hash_bytes(&h));
+    }
+    st.class_if(nt, "nontrivial");
+    st.class(&format!("indent-{}", g.case.indent));
+    st.class(if g.prog.is_write { "write-program" } else { "read-program" });
+    for t in &g.prog.tags {
+        st.class(t);
+    }
+    st.class_if(g.stream.len() > 1, "multi-document");
+    st.class_if(s.anchors > 0 && s.aliases > 0, "doc:anchor+alias");
+    st.class_if(s.literal + s.folded > 0, "doc:block-scalar");
+    st.class_if(s.quoted_ambiguous > 0, "doc:quoted-ambiguous-string");
+    st.class_if(s.has_comment(), "doc:comment");
+    st.class_if(s.flow_maps + s.flow_seqs > 0, "doc:flow-collection");
+    st.class_if(s.line_break != "LF", "doc:crlf-or-cr");
+    st.class_if(g.simple, "simple-strings");
+    st.size(g.case.yaml.len());
+    let cls = g.prog.tags.first().copied().unwrap_or("?");
+    st.sample(cls, || json!({"yaml": show_bytes(&g.case.yaml), "program": g.case.program, "indent": g.case.indent}));
+}
+
+fn describe(c: &Case) -> Value {
+    json!({"yaml_hex": hex(&c.yaml), "yaml": String::from_utf8_lossy(&c.yaml), "program": c.program, "indent": c.indent})
+}
+
+/// development aid: VH_C15_SURVEY=<file> appends every failure (signature + case) to <file>
+/// and keeps searching without shrinking
+fn survey(f: &Fail, case: Value, st: &mut Stats) -> bool {
+    if let Ok(path) = std::env::var("VH_C15_SURVEY") {
+        use std::io::Write;
+        if let Ok(mut fh) = std::fs::OpenOptions::new().create(true).append(true).open(&path) {
+            let _ = writeln!(fh, "{}", json!({"sig": f.sig, "detail": f.detail, "case": case}));
+        }
+        st.class("survey:failure");
+        return true;
+    }
+    false
+}
+
+fn run_case(u: &mut Src, st: &mut Stats, av: Avoid) -> Result<(), Fail> {
+    let g = gen_case(u, av);
+    classify(&g, st);
+    st.describe(|| describe(&g.case));
+    let outcome = match check_case(&g.case, st) {
+        Ok(o) => o,
+        Err(f) => {
+            if survey(&f, describe(&g.case), st) {
+                return Ok(());
+            }
+            return Err(f);
+        }
+    };
+    match outcome {
+        Outcome::Reread { aliases, anchors } => {
+            st.class("outcome:reread-compared");
+            st.class_if(aliases > 0, "output-has-alias");
+            st.class_if(anchors > 0, "output-has-anchor");
+            st.class_if(aliases > 0 && g.prog.is_write, "output-has-alias-after-write");
+        }
+        Outcome::ScalarResult => st.class("outcome:root-scalar-result"),
+        Outcome::NoResult => st.class("outcome:no-result"),
+        Outcome::BothError => st.class("outcome:both-runs-error"),
+        Outcome::UsageError => st.class("outcome:usage-error-I8"),
+        Outcome::DocumentedLimit => st.class("outcome:documented-loader-limit(comment-with-colon-on-keyless-line)"),
+        Outcome::Discarded => st.discard(),
+    }
+    Ok(())
+}
+
+// ---------------------------------------------------------------- quoting matrix
+
+const MATRIX_DOC: &str = "a: 1\nb: [x, \"y\"]\nc: {p: 1}\n";
+
+/// (context name, role, program for the string literal `s`)
+fn matrix_prog(ctx: usize, s: &str) -> (&'static str, String) {
+    let q = crate::oracle::jqeval::jq_string(s);
+    match ctx {
+        0 => ("value-in-block", format!(".zz = {}", q)),
+        1 => ("value-in-block", format!(".zz = [{q}, [{q}], {{\"k\": {q}}}]", q = q)),
+        2 => ("value-in-flow", format!(".b += [{}]", q)),
+        3 => ("value-in-flow", format!(".c.q = {}", q)),
+        4 => ("key-in-block", format!(".[{}] = 1", q)),
+        5 => ("key-in-block", format!(".zz = [{{{}: 1, \"b\": 2}}]", q)),
+        _ => ("key-in-flow", format!(".c += {{{}: 1}}", q)),
+    }
+}
+
+/// Trigger predicates of the open DOM-emitter quoting findings: the reason (if any) why the
+/// string `s` is known to be written unquoted at `position` although it does not read back.
+/// First applicable reason in a fixed order, so the signature is a function of (position, s).
+pub fn known_quoting_gap(position: &str, s: &str) -> Option<&'static str> {
+    let key = position.starts_with("key");
+    let flow = position.ends_with("flow");
+    if s.starts_with(' ') {
+        return Some("leading-space");
+    }
+    if key && s.contains('\t') {
+        return Some("tab");
+    }
+    if !key && (matches!(str_class(s, false), "hex-int" | "octal-int") || matches!(s, "+.inf" | "+.Inf" | "+.INF")) {
+        return Some("non-decimal-number");
+    }
+    if key && (s.starts_with('|') || s.starts_with('>')) {
+        return Some("block-scalar-indicator-start");
+    }
+    if flow && s.contains([',', ']', '}']) {
+        return Some("flow-terminator");
+    }
+    None
+}
+
+/// One string through one position of the DOM emitter; a failure is attributed to
+/// (position, known quoting gap of the string) whatever its symptom; a failing string
+/// without a known gap keeps a signature of its own (`unexplained:<class>`).
+fn matrix_case(u: &mut Src, st: &mut Stats) -> Result<(), Fail> {
+    let o = YOpts::full();
+    let ctx = u.below(7);
+    let mut s = if ctx >= 4 && u.bool() { gy::gen_key(u, &o) } else { gy::gen_string(u, &o) };
+    if s == "<<" {
+        // a key spelled `<<` is a merge key even when quoted (documented, test-pinned)
+        s = "<<<".into();
+    }
+    let (ctx_name, program) = matrix_prog(ctx, &s);
+    let class = str_class(&s, false);
+    st.class(ctx_name);
+    st.class(&format!("class:{}", class));
+    if let Some(g) = known_quoting_gap(ctx_name, &s) {
+        st.class(&format!("known-gap:{}/{}", ctx_name, g));
+    }
+    st.nontrivial(hash_str(&format!("{}|{}", ctx, s)));
+    st.sample(class, || json!({"string": s, "position": ctx_name, "program": program}));
+    let case = Case { yaml: MATRIX_DOC.as_bytes().to_vec(), program, indent: 2 };
+    st.describe(|| describe(&case));
+    match check_once(&case, 2, st) {
+        Ok(Outcome::Discarded) => {
+            st.discard();
+            Ok(())
+        }
+        Ok(_) => Ok(()),
+        Err(f) if f.sig.starts_with("C15/crash") => Err(f),
+        Err(f) => {
+            let mut d = f.detail.clone();
+            if let Some(m) = d.as_object_mut() {
+                m.insert("symptom".into(), json!(f.sig));
+                m.insert("string".into(), json!(s));
+            }
+            let reason = match known_quoting_gap(ctx_name, &s) {
+                Some(g) => g.to_string(),
+                None => format!("unexplained:{}", class),
+            };
+            let f = Fail::new(format!("C15/dom-quoting/{}/{}", ctx_name, reason), d);
+            if survey(&f, describe(&case), st) {
+                return Ok(());
+            }
+            Err(f)
+        }
+    }
+}
+
+fn replay_input(v: &Value) -> Option<Fail> {
+    let inp = &v["input"];
+    let yaml: Vec<u8> = match (inp["yaml"].as_str(), inp["yaml_hex"].as_str()) {
+        (_, Some(h)) => unhex(h),
+        (Some(s), None) => s.as_bytes().to_vec(),
+        _ => return Some(Fail::new("C15/replay/malformed", json!({"why": "no yaml"}))),
+    };
+    let program = match inp["program"].as_str() {
+        Some(p) => p.to_string(),
+        None => return Some(Fail::new("C15/replay/malformed", json!({"why": "no program"}))),
+    };
+    let indent = inp["indent"].as_u64().unwrap_or(2) as u8;
+    let case = Case { yaml, program, indent };
+    let mut st = Stats::default();
+    let r = catch(|| check_case(&case, &mut st));
+    match r {
+        Ok(Ok(_)) => None,
+        Ok(Err(f)) => {
+            // a quoting-matrix replay names its (position, class) signature itself
+            match (v["subcheck"].as_str(), inp["matrix_signature"].as_str()) {
+                (Some("quoting-matrix"), Some(sig)) if !f.sig.starts_with("C15/crash") => Some(Fail::new(sig, f.detail)),
+                _ => Some(f),
+            }
+        }
+        Err((loc, msg)) => Some(Fail::new(format!("panic@{}", panic_sig(&loc)), json!({"panic": msg, "location": loc}))),
+    }
+}
 
 pub fn run(cx: &mut Ctx) {
-    cx.infra("check not built");
+    cx.assume("the `succinctly` binary at $VH_CLI is built from /repo's working tree (run.sh rebuilds it); the library linked into the harness is the same tree");
+    cx.assume("O-jsonval (harness JSON parser) reads the CLI's JSON output; numbers compare as doubles (documents and programs are integer-preserving, so no float spelling is involved)");
+    cx.assume("the re-read uses the repository's own loader (that is what the statement says: 'loads back'); its agreement with the YAML specification is C14's subject");
+    cx.assume("documented and therefore not generated: `--sort-keys` and navigation into a sub-tree whose aliases point outside it (streaming-path alias gap #1350, docs/compliance/yq/limitations.md), keys spelled `<<` (merge keys), root scalar results (printed unwrapped)");
+    cx.assume("G-yaml only emits documents the repository documents as supported; shapes of the open loader findings (C14) are not generated");
+    if !cli::cli_available() {
+        cx.infra(format!("CLI binary not found at {}", cli::cli_path()));
+        return;
+    }
+    for (name, v) in cx.replays.clone() {
+        if v["kind"] == "input" {
+            let r = replay_input(&v);
+            cx.replay_outcome(&name, r);
+        }
+    }
+    let av = Avoid {
+        i0_writes: cx.is_known(SIG_I0),
+        dom_quoting: cx.known.iter().any(|k| k.status == "known" && k.signature.starts_with("C15/dom-quoting/")),
+        header_comment: cx.is_known(SIG_HEADER_COMMENT),
+        folded_leading_blank: cx.is_known(SIG_FOLDED_LEAD),
+        folded_keep: cx.is_known(SIG_FOLDED_KEEP),
+        nested_anchor_writes: cx.is_known(SIG_NESTED_ANCHOR),
+    };
+    let mut avoided = vec![];
+    if av.i0_writes {
+        avoided.push("`-I 0` with a write program");
+    }
+    if av.dom_quoting {
+        avoided.push("hostile strings through the DOM emitter (write programs use the simple string palette; `quoting-matrix` covers the full palette)");
+    }
+    if av.header_comment {
+        avoided.push("a comment on a block scalar header line");
+    }
+    if av.folded_leading_blank {
+        avoided.push("a folded block scalar starting with a line break");
+    }
+    if av.folded_keep {
+        avoided.push("a folded block scalar ending in two or more line breaks");
+    }
+    if av.nested_anchor_writes {
+        avoided.push("a write program on a document with an anchor inside an anchored collection");
+    }
+    if !avoided.is_empty() {
+        cx.note(format!("open findings: `reread` does not generate {}; `open-finding-shapes` does", avoided.join("; ")));
+    }
+    cx.check("reread", RULE, Budget { quick: 3_000, thorough: 150_000, max_len: 3000 }, |u, st| run_case(u, st, av));
+    for cl in [
+        "nontrivial", "write-program", "read-program", "assign", "update", "add-assign", "delete", "merge-literal", "merge-assign", "alt-assign", "pipe",
+        "identity", "navigate", "path:anchor", "path:alias", "path:through-alias", "path:block-scalar-parent", "path:new-key", "path:append",
+        "path:missing", "doc:anchor+alias", "doc:block-scalar", "doc:quoted-ambiguous-string", "doc:comment", "outcome:reread-compared",
+        "output-has-alias", "output-has-anchor", "output-has-alias-after-write", "outcome:usage-error-I8", "indent-1", "indent-3", "indent-7", "multi-document",
+    ] {
+        cx.require_class("reread", cl, 5);
+    }
+    cx.check(
+        "quoting-matrix",
+        "one string of the G-yaml palette (ambiguous-looking, indicators, white space, controls, non-ASCII) written by a program into one position of a fixed document (block value, value inside flow, block key, key inside flow); same oracle; a failure is attributed to (position, class of the string)",
+        Budget { quick: 1_200, thorough: 40_000, max_len: 400 },
+        matrix_case,
+    );
+    for cl in ["value-in-block", "value-in-flow", "key-in-block", "key-in-flow"] {
+        cx.require_class("quoting-matrix", cl, 50);
+    }
+    for cl in ["class:number-like", "class:null-bool-word", "class:line-break", "class:indicator-start", "class:empty", "class:other"] {
+        cx.require_class("quoting-matrix", cl, 5);
+    }
+    // everything un-avoided whose failures the oracle can attribute by itself
+    let open = Avoid { dom_quoting: av.dom_quoting, ..Avoid::default() };
+    cx.check(
+        "open-finding-shapes",
+        "the `reread` search with the shapes of C15's open findings generated on purpose (`-I 0` with writes, comments on block scalar headers, folded scalars starting with a line break); failures with a listed signature are counted, others are violations",
+        Budget { quick: 600, thorough: 20_000, max_len: 3000 },
+        |u, st| run_case(u, st, open),
+    );
+    let t = TIMEOUTS.load(Ordering::Relaxed);
+    if t > 0 {
+        cx.note(format!("{} CLI runs hit the 20 s watchdog twice and were discarded (not violations)", t));
+    }
+    cli::cleanup();
 }
